@@ -156,6 +156,10 @@ def check_property(prop, tier):
             path, meta = ensure_bundles(cfg)
             det, _ = ensure_bundles("DETable")
             b = build_harness("debug")
+            if prop == "C11" and cfg == bundle_cfgs[0]:
+                # lookups again without debug assertions
+                r = run_replay(build_harness("release"), path, ["--no-outcomes"], "%s-%s-release" % (prop, cfg))
+                add_replay(v, r, meta, "every lookup path at every reachable model state, release build", [prop])
             flags = ["--no-outcomes"] + (["--pulls", "--detable", det + ".plain"] if prop == "C10" else [])
             if prop == "C10":
                 sh(["bash", "-c", "pigz -dc %s > %s.plain" % (det, det)])
@@ -213,16 +217,16 @@ def check_property(prop, tier):
 
 
 def check_c14(v, tier):
-    for cfg in (["GenPrint_s4", "GenPrintShapes_k6"] if tier == "quick" else ["GenPrint_s5", "GenPrintShapes_k7"]):
+    for cfg in (["GenPrint_s4", "GenPrintShapes_k6", "GenPrintDeep"] if tier == "quick" else ["GenPrint_s5", "GenPrintShapes_k7", "GenPrintDeep"]):
         check_c14_cfg(v, tier, cfg)
     v.assumptions.append("payload renderings: 1-3 lines, a 3-line payload has an empty middle line, multi-byte characters, written to the formatter in one piece / line by line / character by character; lines whose payload text is empty are compared modulo trailing blanks")
 
 
 def check_c14_cfg(v, tier, cfg):
     path, meta = ensure_bundles(cfg)
-    for profile in (("debug",) if tier == "quick" else ("debug", "release")):
+    for profile in ("debug", "release"):
         b = build_harness(profile)
-        out = os.path.join(vlib.RUN, "print-%s.json" % profile)
+        out = os.path.join(vlib.RUN, "print-%s-%s.json" % (cfg, profile))
         rc, o = sh(["bash", "-c", "set -o pipefail; pigz -dc %s | %s print --out %s" % (path, b, out)], timeout=3600)
         if rc != 0:
             raise ToolError("print harness failed: " + o[-2000:])
@@ -478,6 +482,7 @@ def setup():
     ensure_bundles("GenShapesMulti_k6")
     ensure_bundles("GenPrint_s4")
     ensure_bundles("GenPrintShapes_k6")
+    ensure_bundles("GenPrintDeep")
     ensure_bundles("TreeMacro7")
     for m in MC_QUICK:
         run_mc(m)
